@@ -32,6 +32,30 @@ def DblVF (vf : VF Rat) : Prop := ∀ l ∈ vf.drop 1, ∀ e ∈ l, ∀ d ∈ e.
 theorem ratIO_Dbl17 (tol : Rat) : ∀ p, 17 ≤ p → ∀ d, IsDbl d → RT (ratIO tol) p d :=
   fun p hp d hd => ratIO_RT tol p hp d hd
 
+/-- the predicate the driver evaluates on every number of every generated object is exactly `IsDbl` -/
+theorem isDblB_iff_IsDbl (q : Rat) : isDblB q = true ↔ IsDbl q := by
+  unfold isDblB IsDbl
+  rcases lt_trichotomy q 0 with hq | hq | hq
+  · have habs : absR q = -q := by unfold absR; simp [hq]
+    have hne : (q == 0) = false := by simpa using ne_of_lt hq
+    rw [habs, hne, Bool.false_or, isDoubleB_iff_IsPosDbl (-q) (by linarith)]
+    constructor
+    · exact fun h => Or.inr (Or.inr h)
+    · rintro (h | h | h)
+      · exact absurd h (ne_of_lt hq)
+      · exact absurd h.pos (by linarith)
+      · exact h
+  · subst hq; simp
+  · have habs : absR q = q := by unfold absR; simp [not_lt.2 (le_of_lt hq)]
+    have hne : (q == 0) = false := by simpa using ne_of_gt hq
+    rw [habs, hne, Bool.false_or, isDoubleB_iff_IsPosDbl q hq]
+    constructor
+    · exact fun h => Or.inr (Or.inl h)
+    · rintro (h | h | h)
+      · exact absurd h (ne_of_gt hq)
+      · exact h
+      · exact absurd h.pos (by linarith)
+
 /-! ### every kind, at the source's precisions, no numeric assumption -/
 
 theorem roundtrip_dmodel_final (tol : Rat) (S A : Nat) (m : DModel Rat) (hv : dmodelValidB (ratIO tol) S A m = true)
@@ -161,6 +185,130 @@ theorem fixed17_tiny_counterexample : scanDQ (printFixedQ 17 (1 * pow2Q (-60))) 
 
 /-- test: the fixed text of 1/3·2^-24 -/
 example : printFixedQ 17 smallThird = "0.00000001986821493".toList := by decide +kernel
+
+/-! ### the helper one level down: what `isProbability` (dense / sparse) guarantees about a loaded object -/
+
+theorem sumQ_foldl (l : List Rat) (a : Rat) : l.foldl (· + ·) a = a + sumQ l := by
+  induction l generalizing a with
+  | nil => simp [sumQ]
+  | cons x xs ih => simp only [sumQ, List.foldl_cons] at ih ⊢; rw [ih (a + x), ih (0 + x)]; ring
+
+theorem sumQ_cons (x : Rat) (l : List Rat) : sumQ (x :: l) = x + sumQ l := by
+  simp only [sumQ, List.foldl_cons]; rw [sumQ_foldl]; simp [sumQ]
+
+theorem absR_eq_abs (x : Rat) : absR x = |x| := by
+  unfold absR; split
+  · rw [abs_of_neg ‹_›]
+  · rw [abs_of_nonneg (not_lt.1 ‹_›)]
+
+/-- Σ|x| − Σx dominates |x| − x of every entry -/
+theorem abs_excess_le (l : List Rat) : ∀ x ∈ l, |x| - x ≤ sumQ (l.map absR) - sumQ l ∧ 0 ≤ sumQ (l.map absR) - sumQ l := by
+  induction l with
+  | nil => intro x hx; cases hx
+  | cons y ys ih =>
+    have hy : 0 ≤ |y| - y := by linarith [le_abs_self y]
+    have hrest : 0 ≤ sumQ (ys.map absR) - sumQ ys := by
+      cases ys with
+      | nil => simp [sumQ]
+      | cons z zs => exact (ih z (List.mem_cons_self)).2
+    intro x hx
+    simp only [List.map_cons, sumQ_cons, absR_eq_abs]
+    rcases List.mem_cons.1 hx with rfl | hx
+    · constructor <;> linarith
+    · have := (ih x hx).1
+      constructor <;> linarith
+
+/-- what `isProbability(SparseMatrix2D)` guarantees about one row ("Eigen sparse does not implement minCoeff … we force
+    the matrix to its abs"): every stored entry is at least −tol and at most 1 + tol, for tol ≥ 0 -/
+theorem sparseRowOk_bounds (tol : Rat) (r : List Rat) (h : (ratIO tol).sparseRowOk r = true) :
+    ∀ x ∈ r, -tol ≤ x ∧ x ≤ 1 + tol := by
+  simp only [ratIO, Bool.and_eq_true, decide_eq_true_eq, absR_eq_abs] at h
+  obtain ⟨h1, h2⟩ := h
+  have h1' := abs_le.1 h1
+  have h2' := abs_le.1 h2
+  intro x hx
+  have hex := (abs_excess_le r x hx).1
+  have hxa : x ≤ |x| := le_abs_self x
+  -- |x| ≤ Σ|·|
+  have hle : |x| ≤ sumQ (r.map absR) := by
+    clear h1 h2 h1' h2' hex
+    induction r with
+    | nil => cases hx
+    | cons y ys ih =>
+      have hnn : ∀ l : List Rat, 0 ≤ sumQ (l.map absR) := by
+        intro l; induction l with
+        | nil => simp [sumQ]
+        | cons z zs ihz => simp only [List.map_cons, sumQ_cons, absR_eq_abs]; linarith [abs_nonneg z]
+      simp only [List.map_cons, sumQ_cons, absR_eq_abs]
+      rcases List.mem_cons.1 hx with rfl | hx
+      · linarith [hnn ys]
+      · linarith [ih hx, abs_nonneg y]
+  constructor
+  · by_contra hc
+    have hneg : x < 0 := by
+      have := abs_nonneg (sumQ r - 1); linarith
+    rw [abs_of_neg hneg] at hex
+    linarith
+  · linarith
+
+/-- what `isProbability(Matrix2D)` guarantees about one row: every entry lies in [0, 1 + tol] -/
+theorem rowOk_bounds (tol : Rat) (r : List Rat) (h : (ratIO tol).rowOk r = true) : ∀ x ∈ r, 0 ≤ x ∧ x ≤ 1 + tol := by
+  simp only [ratIO, Bool.and_eq_true, Bool.not_eq_true', List.any_eq_false, decide_eq_true_eq, absR_eq_abs] at h
+  obtain ⟨hn, hs⟩ := h
+  have hs' := abs_le.1 hs
+  have hnn : ∀ x ∈ r, 0 ≤ x := fun x hx => by simpa using hn x hx
+  intro x hx
+  refine ⟨hnn x hx, ?_⟩
+  have hle : x ≤ sumQ r := by
+    clear hs hs' hn
+    induction r with
+    | nil => cases hx
+    | cons y ys ih =>
+      have hsum : ∀ l : List Rat, (∀ z ∈ l, 0 ≤ z) → 0 ≤ sumQ l := by
+        intro l hl; induction l with
+        | nil => simp [sumQ]
+        | cons z zs ihz => rw [sumQ_cons]; linarith [hl z (List.mem_cons_self), ihz (fun w hw => hl w (List.mem_cons_of_mem _ hw))]
+      rw [sumQ_cons]
+      rcases List.mem_cons.1 hx with rfl | hx
+      · linarith [hsum ys (fun w hw => hnn w (List.mem_cons_of_mem _ hw))]
+      · linarith [ih (fun w hw => hnn w (List.mem_cons_of_mem _ hw)) hx, hnn y (List.mem_cons_self)]
+  linarith
+
+/-- every load that succeeds — on ANY input — leaves a dense model whose transition probabilities lie in [0, 1 + tol]
+    and whose discount is in (0, 1] (`rdDModel_ok` read through the helper contracts above) -/
+theorem loaded_dmodel_probabilities (tol : Rat) (S A : Nat) (s s' : Stream) (m : DModel Rat)
+    (h : rdDModel (ratIO tol) S A s = .ok m s') :
+    (0 < m.discount ∧ m.discount ≤ 1) ∧ ∀ t ∈ m.T, ∀ r ∈ t, ∀ x ∈ r, 0 ≤ x ∧ x ≤ 1 + tol := by
+  have hv := rdDModel_ok (ratIO tol) S A s s' m h
+  simp only [dmodelValidB, Bool.and_eq_true, isProbMat3, isProbMat, List.all_eq_true] at hv
+  obtain ⟨⟨⟨hd, _⟩, hp⟩, _⟩ := hv
+  refine ⟨?_, fun t ht r hr => rowOk_bounds tol r (hp t ht r hr)⟩
+  simp only [ratIO, Bool.not_eq_true', Bool.or_eq_false_iff, decide_eq_false_iff_not, not_le, not_lt] at hd
+  exact hd
+
+/-- the sparse loader: stored transition entries lie in [−tol, 1 + tol] — the |·| trick of
+    `isProbability(SparseMatrix2D)` bounds negative entries by the tolerance, it does not exclude them -/
+theorem loaded_smodel_probabilities (tol : Rat) (S A : Nat) (s s' : Stream) (m : SModel Rat)
+    (h : rdSModel (ratIO tol) S A s = .ok m s') :
+    ∀ t ∈ m.T, ∀ i < S, ∀ x ∈ spRow t i, -tol ≤ x ∧ x ≤ 1 + tol := by
+  have hv := rdSModel_ok (ratIO tol) S A s s' m h
+  simp only [smodelValidB, Bool.and_eq_true, isProbSp3, isProbSp, List.all_eq_true, List.mem_range] at hv
+  obtain ⟨⟨_, hp⟩, _⟩ := hv
+  exact fun t ht i hi => sparseRowOk_bounds tol _ (hp t ht i hi)
+
+/-- witness that the sparse bound is tight in kind: a row (1 + 1/2000000, −1/2000000) passes the sparse check at
+    tol = 1e-6 and is rejected by the dense one (test by evaluation) -/
+example : (ratIO (1 / 1000000)).sparseRowOk [1 + 1 / 2000000, -1 / 2000000] = true ∧
+    (ratIO (1 / 1000000)).rowOk [1 + 1 / 2000000, -1 / 2000000] = false := by decide +kernel
+
+/-! ### obligations over the regenerated module: the stream abstraction of the model -/
+
+/-- obligation: every reader touches its stream only through formatted extraction, `peek` and `setstate(failbit)` —
+    what makes "the stream is the list of its unread white-space separated tokens" a sound reading of the code -/
+theorem IOPrec_formatted_only : AITB.Gen.IOPrec.formattedOnly.all (·.2) = true := by decide
+
+/-- obligation: no reader clears or reconfigures its stream — failbit is sticky (`loadSeq`, `Rd.bind`) -/
+theorem IOPrec_never_clears : AITB.Gen.IOPrec.neverClears.all (·.2) = true := by decide
 
 /-! ### consecutive loads on one stream (failbit is sticky) -/
 
